@@ -974,9 +974,39 @@ impl Element {
                         None
                     };
 
+                    // on an element with mixed content the sub elements that get replaced must be removed properly, so that
+                    // they can no longer be found by path or as the origin of a reference. The path of the closest named
+                    // parent is needed for that; it is collected before this element is locked
+                    let replaced_path_prefix = if self.sub_elements().next().is_some() {
+                        let mut names = Vec::new();
+                        let mut cur_elem_opt = Some(self.clone());
+                        while let Some(cur_elem) = cur_elem_opt {
+                            if let Some(name) = cur_elem.item_name() {
+                                names.push(name);
+                            }
+                            cur_elem_opt = cur_elem.parent()?;
+                        }
+                        names.push(String::new());
+                        names.reverse();
+                        Some(names.join("/"))
+                    } else {
+                        None
+                    };
+
                     // update the character data
                     {
                         let mut element = self.0.write();
+                        if let Some(path_prefix) = &replaced_path_prefix {
+                            for item in &element.content {
+                                if let ElementContent::Element(sub_element) = item {
+                                    sub_element.0.write().remove_internal(
+                                        sub_element.downgrade(),
+                                        &model,
+                                        std::borrow::Cow::from(path_prefix.as_str()),
+                                    );
+                                }
+                            }
+                        }
                         element.content.clear();
                         element.content.push(ElementContent::CharacterData(chardata));
                     }
